@@ -9,6 +9,25 @@ COMMON_ASSUME = [
     "verif_hooks.go accessors (build tag verif) only read state or call existing internals",
 ]
 
+def post_c08(c):
+    """'an action that skips is not counted as a step': with every second attempt skipping before
+    drawing, the mean number of completed actions per case must stay near -rapid.steps=S
+    (skips counted as steps would give S/2).  Margin > 8 sigma, see DESIGN.md C08."""
+    out = []
+    for S in (5, 30):
+        key = "steps=%d" % S
+        cases = c.get("stat_cases:" + key, 0)
+        if cases < 3000:
+            continue
+        mean = c.get("stat_completed:" + key, 0) / cases
+        c["stat_mean_completed_x100:" + key] = int(mean * 100)
+        if not (0.8 * S <= mean <= 1.25 * S):
+            out.append(("mean number of completed actions per case is %.2f with -rapid.steps=%d over %d cases (skipped actions counted as steps?)" % (mean, S, cases),
+                        "c08/step-mean", {"steps": S, "cases": cases, "mean_completed": mean,
+                                          "mean_attempts": c.get("stat_attempts:" + key, 0) / cases}))
+    return out
+
+
 META = {
     "C03": {
         "level": "exploration",
@@ -113,5 +132,37 @@ META = {
         "level_text": "Runtime monitor of case-to-case isolation on the T that findBug reuses; forced orders are inconclusive (never held) when steering fails.",
         "technique": "history monitor over per-case behaviours steered by a same-seed dry run; attribution oracle (falsified case = reproduced case)",
         "max_inconclusive": 0.05,
+    },
+    "C08": {
+        "level": "exploration",
+        "evaluations": ["traces_checked"],
+        "required": ["traces_checked", "actions_completed", "stuck_machines", "fuzz_cases", "phase:buffer", "phase:generate", "stat_cases:steps=5", "stat_cases:steps=30"],
+        "show": ["traces_checked", "events", "actions_completed", "action_attempts", "stuck_machines", "stat_mean_completed_x100:steps=5", "stat_mean_completed_x100:steps=30"],
+        "rule": "random machines (1-6 actions that draw, skip before/after drawing, fail fatally or non-fatally, +/- invariant, struct machines via "
+                "StateMachineActions) run by Check (all stream kinds incl. minimisation candidates) and MakeFuzz; each invocation's event trace is fed "
+                "to the discipline automaton; stuck machines must end in the 'no valid action' failure; step statistics over >=3000 cases per setting; "
+                "non-trivial+distinct = distinct trace shapes (sequence of event classes, first 40 events) accepted by the automaton",
+        "assumptions": COMMON_ASSUME + ["machines whose actions all skip after drawing are only required to terminate"],
+        "level_text": "Online trace-specification monitor (finite automaton over check/action begin/end events recorded at the callback boundary) "
+                      "over thousands of machines and ~10^6 events, plus a >8 sigma statistical band for 'skips are not steps'.",
+        "technique": "trace automaton over callback events; bounded-progress check for stuck machines; statistical band on completed steps",
+        "post": post_c08,
+    },
+    "C10": {
+        "level": "exploration",
+        "evaluations": ["brackets"],
+        "required": ["brackets", "cleanups_run", "contexts", "checks_run", "example_calls", "fuzz_cases",
+                     "brackets:prop:check:generate", "brackets:prop:check:reproduce", "brackets:prop:check:accepted", "brackets:prop:check:buffer",
+                     "brackets:custom:check:", "brackets:custom:example:", "brackets:prop:fuzz:buffer"],
+        "show": ["brackets", "events", "cleanups_registered", "cleanups_run", "contexts"],
+        "rule": "properties with 0-6 body cleanups (none / panic / register more / Errorf / Fatalf / Context()), Custom generator functions with their own "
+                "cleanups and contexts under Filter/distinct (retried), Repeat actions registering cleanups, endings {return, Fatalf, panic, Skip, Errorf}; "
+                "every call of a property or Custom function is a bracket whose events (begin, ctx samples, reg, bodyend, run) are checked in one global "
+                "sequence against a reference LIFO stack, cancellation-before-cleanup, exactly-once and completion-before-next-begin; brackets are counted "
+                "per phase (generate/reproduce/accepted/rejected candidates, fail-file replay, capture, final replay, Example, MakeFuzz); "
+                "non-trivial+distinct = distinct bracket event shapes",
+        "assumptions": COMMON_ASSUME,
+        "level_text": "Runtime bracket monitor over every invocation rapid makes (hundreds of thousands of brackets incl. minimisation and retried Custom calls).",
+        "technique": "event-trace monitor with reference LIFO stack model and context liveness sampling at the callback boundary",
     },
 }
